@@ -78,7 +78,7 @@ fn strategy_large(_t: Tier) -> BoxedStrategy<Case> {
         .boxed()
 }
 
-fn run_orbit(c: &Case) -> Verdict {
+pub fn run_orbit(c: &Case) -> Verdict {
     let x = match load(c.fam, &c.f) {
         Ok(x) => x,
         Err(_) => return pass(false, vec!["skipped:unloadable".into()]),
